@@ -64,13 +64,28 @@ def r19_1(ctx, rep):
     # name agreement
     model_fields = _model_fields(ctx, R)
     # keys that carry the four function objects (db.update(objects)) are not Model fields even if a field has the same name
-    model_fields -= {k for k, nodes in written.items() if all(isinstance(n, ast.Call) for n in nodes)}
+    def _display_value(n, k):
+        """the value a dict display `db = {...}` gives key k; None when the key comes in through a `**mapping` entry"""
+        if isinstance(n, ast.Assign) and isinstance(n.value, ast.Dict):
+            for kk, vv in zip(n.value.keys, n.value.values):
+                if kk is not None and const_str(kk) == k:
+                    return vv
+        return None
+
+    model_fields -= {k for k, nodes in written.items() if all(isinstance(n, ast.Call) or (isinstance(n, ast.Assign) and _display_value(n, k) is None) for n in nodes)}
     for k in sorted(set(written) & model_fields):
         n = written[k][0]
         st = n
         while not isinstance(st, ast.stmt):
             st = getattr(st, "_parent")
         val = norm(st.value) if isinstance(st, ast.Assign) else ""
+        if isinstance(n, ast.Assign):
+            dv = _display_value(n, k)
+            val = norm(dv) if dv is not None else ""
+            ok = ("model.%s" % k) in val
+            rep.ob(R, API + ":save_model", "db[%r] stored from model.%s" % (k, k), ok,
+                   "the value stored under %r must be computed from model.%s; found `%s`" % (k, k, val[:80]))
+            continue
         ok = ("model.%s" % k) in val or (isinstance(n.slice, ast.Name) and ("getattr(model, %s)" % n.slice.id) in val and k in (key_values(sv, n.slice, n) or []))
         rep.ob(R, API + ":save_model", "db[%r] stored from model.%s" % (k, k), ok,
                "the value stored under %r must be computed from model.%s; found `%s`" % (k, k, val[:80]))
@@ -250,7 +265,9 @@ def r19_4(ctx, rep):
             if isinstance(s, ast.Assign) and isinstance(s.targets[0], ast.Name) and isinstance(s.value, ast.List) and len(s.value.elts) >= 5 \
                     and norm(s.value.elts[0]).endswith(".time"):
                 k += 1
-                sites.append(("%s:%s" % (rel, q), "argument list #%d" % k, signature_of([e.value if isinstance(e, ast.Starred) else e for e in s.value.elts])))
+                from ..pyutil import inlined as _inl
+                sites.append(("%s:%s" % (rel, q), "argument list #%d" % k,
+                              signature_of([_inl(e.value if isinstance(e, ast.Starred) else e, fn.body) for e in s.value.elts])))
     if len(sites) < 9:
         raise MechanismMissing(R, "only %d signature sites found, expected 9" % len(sites))
     for site, key, sig in sites:
